@@ -47,6 +47,13 @@ def objective(desc):
     if k == 'const':
         c = desc.get('c', 0.0)
         return lambda y: float(c)
+    if k == 'expcap':  # capped exponential computed with numpy scalars: overflows (a numpy warning, normally) on part of the box
+        import numpy as np
+        w = desc.get('w', 900.0)
+        return lambda y: float(min(np.exp(np.float64(w) * np.float64(y[0])), 1e3)) + float(sum((t - 0.3) ** 2 for t in y[1:]))
+    if k == 'invcap':  # capped pole: 1/|y0| computed with numpy scalars (division by zero is a numpy warning, normally)
+        import numpy as np
+        return lambda y: float(min(np.float64(1.0) / np.float64(abs(y[0])), 100.0)) + float(sum((t - 0.3) ** 2 for t in y[1:]))
     if k == 'quad':  # sum (y_i - c_i)^2, unconstrained minimum possibly outside the box
         c = desc['c']
         return lambda y: float(sum((yi - ci) ** 2 for yi, ci in zip(y, c)))
